@@ -76,8 +76,8 @@ func zzhC01Op(d *Document) {
 	case 0:
 		d.AddParagraph(zzvString())
 	case 1:
-		_, err := d.AddImageFromData([]byte(zzvString()), zzhC01Names[zzvChoice(len(zzhC01Names))], zzhFormats[zzvChoice(3)], 10, 10, nil)
-		zzvAssume(err == nil)
+		// (a call that reports an error must leave the package as consistent as a successful one)
+		d.AddImageFromData([]byte(zzvString()), zzhC01Names[zzvChoice(len(zzhC01Names))], zzhFormats[zzvChoice(3)], 10, 10, nil)
 	case 2:
 		zzvAssume(d.AddHeader(zzhKinds[zzvChoice(3)], zzvString()) == nil)
 	case 3:
@@ -174,6 +174,15 @@ func ZZH_C01_RenderedDocumentsContentTypes() {
 	src := New()
 	_, err := src.AddImageFromData([]byte(zzvString()), "base.png", ImageFormatPNG, 1, 1, nil)
 	zzvAssume(err == nil)
+	if zzvBool() {
+		// the base document was opened from a package that lists its relationships the way Word
+		// does: document properties first, the main document last
+		src.relationships = &Relationships{Xmlns: zzhNSRel, Relationships: []Relationship{
+			{ID: "rId3", Type: "http://schemas.openxmlformats.org/officeDocument/2006/relationships/extended-properties", Target: "docProps/app.xml"},
+			{ID: "rId1", Type: zzhRelOfficeDoc, Target: "word/document.xml"},
+		}}
+		src.parts["docProps/app.xml"] = []byte(`<Properties xmlns="http://schemas.openxmlformats.org/officeDocument/2006/extended-properties"/>`)
+	}
 	te := NewTemplateEngine()
 	a, b := te.cloneDocument(src), te.cloneDocument(src)
 	zzvAssertDisjoint(interface{}(a.contentTypes), interface{}(src), "rendered document content types")
